@@ -181,8 +181,16 @@ def _site(o: Any) -> str:
 def marks(system: Any) -> Dict[str, List[str]]:
     """mechanism witnesses for unresolved bases: {mechanism: [class sites]}"""
     from pydoctor import model
-    out: Dict[str, List[str]] = {'movedscope': [], 'starcycle': []}
+    out: Dict[str, List[str]] = {'movedscope': [], 'starcycle': [], 'earlybinding': []}
     star = system.__dict__.get('_vf_star_in_progress', [])
+    # names that a module imports and then defines itself (a fallback replaced by the real class): while that module is still being
+    # processed the name means what was imported
+    shadowed = {}
+    for m_ in system.allobjects.values():
+        if isinstance(m_, model.Module):
+            for nm_, tgt_ in getattr(m_, '_localNameToFullName_map', {}).items():
+                if isinstance(m_.contents.get(nm_), model.Class):
+                    shadowed.setdefault(tgt_, []).append(f'{m_.fullName()}.{nm_}')
     bypath = {}
     for o in system.allobjects.values():
         if isinstance(o, model.Module) and o.source_path is not None:
@@ -190,8 +198,13 @@ def marks(system: Any) -> Dict[str, List[str]]:
     for o in system.allobjects.values():
         if not isinstance(o, model.Class):
             continue
-        for (raw, _node), b in zip(o.rawbases, o.baseobjects):
+        for i_, ((raw, _node), b) in enumerate(zip(o.rawbases, o.baseobjects)):
             if b is not None:
+                continue
+            # (0) the base (or the alias it is written with) was expanded, when the statement was visited, through a module in progress in
+            # which the name was still bound by an import that the module's own class definition replaces later
+            if i_ < len(o._initialbases) and o._initialbases[i_] in shadowed and system.__dict__.get('_vf_cycle_hit'):
+                out['earlybinding'].append(_site(o))
                 continue
             # (1) the class was moved by a re-export and its base only resolves in the scope it was written in
             orig_mod = bypath.get(str(o.source_path))
@@ -370,7 +383,8 @@ def _run_orders(res: core.Res, roots: List[Any], label: str, max_orders: int, hi
                 continue
             mk0 = runs[0][3]
             attributed = False
-            for mech, what in (('movedscope', 'base-of-moved-class-resolved-in-new-scope'), ('starcycle', 'star-import-from-module-in-progress')):
+            for mech, what in (('movedscope', 'base-of-moved-class-resolved-in-new-scope'), ('starcycle', 'star-import-from-module-in-progress'),
+                               ('earlybinding', 'name-imported-then-defined-seen-through-module-in-progress')):
                 if set(mk0[mech]) != set(mk[mech]):
                     res.v(f'C06:{what}', f'{label}: orders {runs[0][0]} and {od} disagree: {df[1]} (classes with this mechanism\'s witness: {sorted(set(mk0[mech]) ^ set(mk[mech]))[:3]})'[:900],
                           order_a=runs[0][0], order_b=od, cyclic=cyclic, **witness)
